@@ -363,7 +363,16 @@ impl fmt::Display for IterableKind {
             IterableKind::Numbers(v) => format!(
                 "[{}]",
                 v.iter()
-                    .map(|value| value.to_string())
+                    .map(|value| {
+                        //a whole value keeps its decimal point: `[2.5, 4]` would be read back
+                        //as an array of mixed kinds and `[4, 7]` as an array of integers
+                        let s = value.to_string();
+                        if value.is_finite() && !s.contains('.') {
+                            format!("{}.0", s)
+                        } else {
+                            s
+                        }
+                    })
                     .collect::<Vec<_>>()
                     .join(", ")
             ),
